@@ -1,10 +1,10 @@
 SPECIFICATION MCSpec
 CONSTANTS
-  MaxLeaves = 8
+  MaxLeaves = 14
   WithSubtrees = TRUE
-  MaxSteps = 40
+  MaxSteps = 45
   Mut = "none"
   FullRewindSets = FALSE
-VIEW ViewNoLen
 INVARIANT Refinement
+INVARIANT EmitEnd
 CHECK_DEADLOCK FALSE
